@@ -103,9 +103,9 @@ SORT_KEYS = ([[]] + [[["a", d]] for d in (1, -1)] + [[["b", d]] for d in (1, -1)
 KEY_SETS = [[], ["a"], ["b"], ["a", "b"], ["b", "a"], ["c"], ["a", "c"]]
 RENAMES = [[], [["c", "a"]], [["c", "b"]], [["c", "a"], ["d", "b"]], [["a", "b"], ["b", "a"]],
            [["c", "z"]], [["a", "a"]], [["a", "b"]]]
-MODIFIES = [[], [["a", "const7"]], [["a", "none"]], [["c", "get_a"]], [["a", "get_b"]], [["a", "a_inc"]],
+MODIFIES = [[], [["a", "const0"]], [["c", "constF"]], [["a", "const7"]], [["a", "none"]], [["c", "get_a"]], [["a", "get_b"]], [["a", "a_inc"]],
             [["c", "attr_a"]], [["b", "nkeys"]], [["a", "const7"], ["c", "get_b"]], [["c", "const7"], ["d", "none"]]]
-MODIFY_IFS = [[], [["a", "const7"]], [["c", "get_a"]], [["a", "a_inc"]], [["a", "const7"], ["c", "const7"]], [["c", "nkeys_reentrant"]]]
+MODIFY_IFS = [[], [["a", "const0"]], [["a", "const7"]], [["c", "get_a"]], [["a", "a_inc"]], [["a", "const7"], ["c", "const7"]], [["c", "nkeys_reentrant"]]]
 FILLS = [[], [["a", None]], [["a", 0]], [["b", "y"]], [["c", 0]], [["a", 0], ["b", "y"]]]
 NEW_ITEM = {"a": 2, "b": "x"}
 
